@@ -40,6 +40,15 @@ CHECKS = {
              "emit within the bounds; every such table is replayed on the real library and compared with PyCode_Addr2Line; "
              "recorded runs are validated by TLC against the specification.",
         ref="DESIGN.md 5 C10"),
+    "C11": dict(
+        technique="TLA+ flag tables per version (Versions) and header decode/encode (Decode!DecodeHeader, EncodeHeader); TLC "
+                  "exhaustive MC_Flags over all 2^18 defined-flag words, unknown bits and hand-altered headers; every state "
+                  "replayed on the real to_flags_data/from_flags_data and through CodeType/from_code/to_code; TLC trace "
+                  "validation (Trace_Flags, P11.*)",
+        text="Every flag word / altered header of the bounded model is pushed through the real library on 3.7-3.10; TLC checks "
+             "losslessness on known words, an exception on unknown bits, and raise-or-reproduce for every header the real "
+             "constructor accepts (the model of the constructor is compared with the real one on every case).",
+        ref="DESIGN.md 5 C11"),
     "C13": dict(
         technique="TLA+ MC_Decode exhaustive over jump graphs on word-code streams; replay as real code objects; TLC trace "
                   "validation (Trace_Decode, clauses P13.*) of block structure against dis jump targets",
